@@ -415,7 +415,7 @@ impl Stats {
     }
 }
 
-fn hash_str(s: &str) -> u64 {
+pub fn hash_str(s: &str) -> u64 {
     let mut h = std::collections::hash_map::DefaultHasher::new();
     s.hash(&mut h);
     h.finish()
